@@ -15,7 +15,7 @@ import (
 
 type PairC12 struct {
 	Old []Step   `json:"old"`
-	New []string `json:"new"`  // nil: the "oldKey" shorthand
+	New []string `json:"new"`           // nil: the "oldKey" shorthand
 	Raw string   `json:"raw,omitempty"` // malformed pair given literally
 }
 
@@ -28,7 +28,41 @@ func init() { register("C12", checkC12) }
 
 var malformedPairs = []string{"a:", ":b", "a:b:c", "a:n*", "a:n[0]", "a:*", ":", "a::b", "::"}
 
+var spacedKeys = []string{" id", "id", "note ", "note", " a ", "b", "id "}
+
+// genSpacedC12: keys with leading/trailing blanks are legal in JSON; NewMap documents no trimming.
+func genSpacedC12(t *rapid.T) CaseC12 {
+	c := CaseC12{Map: map[string]interface{}{}}
+	n := rapid.IntRange(2, 5).Draw(t, "nk")
+	for i := 0; i < n; i++ {
+		k := rapid.SampledFrom(spacedKeys).Draw(t, "k")
+		if rapid.Bool().Draw(t, "nested") {
+			c.Map[k] = map[string]interface{}{rapid.SampledFrom(spacedKeys).Draw(t, "k2"): float64(i), "z": "v"}
+		} else {
+			c.Map[k] = float64(i)
+		}
+	}
+	np := rapid.IntRange(1, 3).Draw(t, "npairs")
+	for i := 0; i < np; i++ {
+		p := PairC12{Old: []Step{{rapid.SampledFrom(spacedKeys).Draw(t, "ok"), -1}}}
+		if rapid.Bool().Draw(t, "deep") {
+			p.Old = append(p.Old, Step{rapid.SampledFrom(spacedKeys).Draw(t, "ok2"), -1})
+		}
+		if rapid.IntRange(0, 3).Draw(t, "shorthand") > 0 {
+			p.New = []string{rapid.SampledFrom([]string{"first", " out", "x ", "n1", " n2 "}).Draw(t, "nk")}
+			if rapid.Bool().Draw(t, "deepnew") {
+				p.New = append(p.New, rapid.SampledFrom([]string{"m", " m", "m "}).Draw(t, "nk2"))
+			}
+		}
+		c.Pairs = append(c.Pairs, p)
+	}
+	return c
+}
+
 func genC12(t *rapid.T) CaseC12 {
+	if rapid.IntRange(0, 7).Draw(t, "spaced") == 0 {
+		return genSpacedC12(t)
+	}
 	sh := genRootShape(t, false)
 	c := CaseC12{Map: instantiate(t, sh).(map[string]interface{})}
 	np := rapid.IntRange(1, 5).Draw(t, "npairs")
@@ -200,6 +234,7 @@ func checkC12(c CaseC12, info *Info) *Failure {
 	} else {
 		info.Class("overlapping new paths (receiver clause only)")
 	}
+	info.ClassIf(strings.Contains(strings.Join(pairs, "|"), " "), "keys with leading/trailing blanks")
 	info.ClassIf(nonEmpty >= 2, ">=2 pairs with non-empty results")
 	info.ClassIf(mapVal, "a projected value is a map")
 	info.NonTrivial(nonEmpty >= 2 && mapVal)
